@@ -55,7 +55,7 @@ def intake(ks):
 
 def run(ids):
     ids = ids or sorted(d for d in os.listdir(RD) if os.path.isdir(os.path.join(RD, d)))
-    path = os.path.join(RD, "MATRIX.json")
+    path = os.environ.get("REFAC_MATRIX", os.path.join(RD, "MATRIX.json"))
     mat = json.load(open(path)) if os.path.exists(path) else {}
     env = dict(os.environ, CFDP_SCRATCH=os.environ.get("CFDP_SCRATCH", "/tmp/w/refac"), CFDP_TAG=os.environ.get("CFDP_TAG", "refac"))
     for rid in ids:
